@@ -29,7 +29,12 @@ FILES = {
     "e.js": b"",                              # empty: skipped by read_file
     "f.js": b"foo(8) \xff\xfe\n",             # not UTF-8: skipped
     "g.js": b"foo(9)\n",                      # faulted in some runs (unreadable)
+    # the same three kinds of skipped file at other positions of the (sorted) work queue: FIRST
+    # and BETWEEN the files with findings — a skip must not affect the files taken after it
+    "0e.js": b"", "0f.js": b"foo(8) \xff\xfe\n", "0g.js": b"foo(9)\n",
+    "a5e.js": b"", "a5f.js": b"foo(8) \xff\xfe\n", "a5g.js": b"foo(9)\n",
 }
+POSITIONED_SKIPS = ["0e.js", "0f.js", "0g.js", "a5e.js", "a5f.js", "a5g.js"]
 
 
 def rules_text():
@@ -319,6 +324,11 @@ def main(argv):
         configs.append((base_files, [], 2, "stream", 2, True))
         configs.append((base_files, [], 3, "stream", 1, True))
 
+    # a skipped file FIRST or BETWEEN the files with findings, T=1 (one schedule) and T=2 (bound 1)
+    for nm in POSITIONED_SKIPS:
+        flt = [nm] if nm.endswith("g.js") else []
+        configs.append((["a.js", "b.js", nm], flt, 1, "stream", 0, False))
+        configs.append((["a.js", "b.js", nm], flt, 2, "stream", 2 if thorough else 1, False))
     # burst configurations: many one-match files, so that in the schedules where the producers run
     # ahead of the printer (the default schedule keeps the running participant running) thousands of
     # items are in flight before the first recv — queue-capacity / back-pressure bugs need that
@@ -350,7 +360,7 @@ def main(argv):
         for (tag, order) in sub.orders:
             distinct_orders.add((tag, order))
     plain = vlib.build_cli(hooks=False)
-    supp, diffs = supplementary(rep, {k: FILES[k] for k in FILES if not k.startswith("m")}, plain, root)
+    supp, diffs = supplementary(rep, {k: FILES[k] for k in FILES if not k.startswith("m") and k not in POSITIONED_SKIPS}, plain, root)
     if diffs:
         rep.violation("free-running:output-differs-between-thread-counts", {"detail": supp})
     samples = [{"files": c["files"], "threads": c["threads"], "style": c["style"], "bound": c["preemption_bound_completed"], "schedules": c["schedules"]} for c in per_cfg[:4]]
